@@ -13,7 +13,10 @@ Inductive obs :=
   | OStatus (ok : bool) (usage : N) (rows : list drow).
 
 Record case := MkCase {
-  c_layersdir : bytes;           (* cfg.Layerdirs *)
+  c_layersdir : bytes;           (* cfg.Layerdirs, as configured *)
+  c_realdir : bytes;             (* the same directory with every symbolic link resolved
+                                    (filepath.EvalSymlinks): the name under which the kernel
+                                    reports it in /proc links *)
   c_dirs : list bytes;           (* [LayerBuildRoot; LayerOvfsWorkdir; LayerOvfsUpperdir] *)
   c_layers : list bytes;         (* names of the layers (all complete) *)
   c_procs : list proc;           (* the /proc snapshot, in readdir order *)
@@ -46,8 +49,10 @@ Fixpoint all_some {A} (l : list (option A)) : option (list A) :=
   | Some x :: r => option_map (cons x) (all_some r)
   end.
 
+(* FindLayerUsers first resolves the symbolic links of the configured path (before the repair
+   it worked with [c_layersdir c] as configured) *)
 Definition model_scan (c : case) : scan_res :=
-  find_layer_users (c_layersdir c) (orc_of (c_faults c)) (c_procs c).
+  find_layer_users (c_realdir c) (orc_of (c_faults c)) (c_procs c).
 
 Definition model (c : case) : obs :=
   match c_status c with
@@ -95,7 +100,7 @@ Definition wf_dir (d : bytes) : bool := nonempty d && last_not_slash d.
 Definition wf_layersdir (d : bytes) : bool :=
   match d with c0 :: _ :: _ => Ascii.eqb c0 slc | _ => false end && last_not_slash d.
 Definition wf (c : case) : bool :=
-  wf_layersdir (c_layersdir c)
+  wf_layersdir (c_layersdir c) && wf_layersdir (c_realdir c)
   && (length (c_dirs c) =? 3)%nat && forallb wf_dir (c_dirs c)
   && forallb (fun L => nonempty L && no_slash L) (c_layers c) && nodupb (c_layers c)
   && forallb wf_proc (c_procs c) && nodupb (map p_name (c_procs c))
@@ -103,7 +108,7 @@ Definition wf (c : case) : bool :=
   && match c_status c with Some i => (i <? length (c_layers c))%nat | None => true end.
 
 (* ---- the property on one case ---- *)
-Definition layer_dir (c : case) (L : bytes) : bytes := c_layersdir c ++ slc :: L.
+Definition layer_dir (c : case) (L : bytes) : bytes := c_realdir c ++ slc :: L.
 
 (* [inside d t]: t is the directory d itself or lies below it; the path relative to d *)
 Definition inside (d t : bytes) : option bytes :=
